@@ -23,6 +23,9 @@ fn main() {
         "c02" => checks::server_props::run(Which::C02, &args),
         "c03" => checks::c03::run(&args),
         "c04" => checks::c04::run(&args),
+        "c05" => checks::c05::run(&args),
+        "c06" => checks::c06::run(&args),
+        "c07" | "c07-worker" => checks::c07::run(&args),
         "c08" => checks::server_props::run(Which::C08, &args),
         "c11" => checks::c11::run(&args),
         "c12" => checks::c12::run(&args),
